@@ -117,8 +117,9 @@ TEMPLATES = [
     ("machine.a if device.counters.c1.enabled else machine.b", None),       # reads depend on the branch
     ("machine.a and machine.b", {"a", "b"}),
     ("(machine.a, machine.b)[0] - machine.b", {"a", "b"}),
+    ("settings.s2 + machine.a", {"s2", "a"}),
 ]
-CHANGES = ["a", "b", "c", "s1", "c1.value", "c1.enabled"]
+CHANGES = ["a", "b", "c", "s1", "c1.value", "c1.enabled", "s2"]
 
 
 def body_subscribe(S, t, part):
@@ -135,7 +136,8 @@ def body_subscribe(S, t, part):
     def py_value():
         a, b = m.variables.get_machine_var("a"), m.variables.get_machine_var("b")
         s1 = m.settings.get_setting_value("s1")
-        return {0: lambda: a + 1, 1: lambda: a > c1.value, 2: lambda: s1 * 2 + a, 3: lambda: a if c1.enabled else b,
+        s2 = m.settings.get_setting_value("s2")
+        return {6: lambda: s2 + a, 0: lambda: a + 1, 1: lambda: a > c1.value, 2: lambda: s1 * 2 + a, 3: lambda: a if c1.enabled else b,
                 4: lambda: a and b, 5: lambda: (a, b)[0] - b}[part["template"]]()
     tpl = pm.build_raw_template(src)
     val, fut = tpl.evaluate_and_subscribe({})
@@ -150,10 +152,10 @@ def body_subscribe(S, t, part):
         if what in ("a", "b", "c"):
             changed = m.variables.get_machine_var(what) != newv
             m.variables.set_machine_var(what, newv)
-        elif what == "s1":
-            sv = (1, 2, 5)[S.choice("s1_value%d" % step, 3)]
-            changed = m.settings.get_setting_value("s1") != sv
-            m.settings.set_setting_value("s1", sv)
+        elif what in ("s1", "s2"):
+            sv = (1, 2, 5)[S.choice("setting_value%d" % step, 3)]
+            changed = m.settings.get_setting_value(what) != sv
+            m.settings.set_setting_value(what, sv)
         elif what == "c1.value":
             before = c1.value
             m.events.post("c1_count")
@@ -167,7 +169,7 @@ def body_subscribe(S, t, part):
         t.advance_time_and_run(0.01)
         if changed and what in reads and not fut.done():
             raise Violation("subscriber-notified-after-change-of-read-input", {"a": "MachinePlaceholder.subscribe_attribute", "b": "MachinePlaceholder.subscribe_attribute",
-                                                                              "s1": "SettingsPlaceholder.subscribe_attribute", "c1.value": "DeviceMonitor.__setattr__",
+                                                                              "s1": "SettingsPlaceholder.subscribe_attribute", "s2": "SettingsPlaceholder.subscribe_attribute", "c1.value": "DeviceMonitor.__setattr__",
                                                                               "c1.enabled": "DeviceMonitor.__setattr__"}.get(what, "subscribe"),
                             "%s: input %s changed but the subscription future is not done" % (src, what))
         val, fut = tpl.evaluate_and_subscribe({})
